@@ -43,6 +43,8 @@ pub trait Controller: Send + Sync {
     fn unpark(&self, tid: usize, slot: usize);
     /// A waiter registered on `slot`.
     fn register_waiter(&self, tid: usize, slot: usize);
+    /// Record an observation of the running thread without yielding.
+    fn observe(&self, _tid: usize, _event: Event) {}
 }
 
 static CONTROLLER: RwLock<Option<Arc<dyn Controller>>> = RwLock::new(None);
@@ -120,6 +122,14 @@ pub fn pt2(site: &'static str, a: usize, b: usize) {
 pub fn pt4(site: &'static str, a: usize, b: usize, c: usize, d: usize) {
     if let Some((ctrl, tid)) = current() {
         ctrl.point(tid, Event { site, args: [a, b, c, d] });
+    }
+}
+
+/// Record observed values (no schedule point: the calling thread keeps running).
+#[inline]
+pub fn obs4(site: &'static str, a: usize, b: usize, c: usize, d: usize) {
+    if let Some((ctrl, tid)) = current() {
+        ctrl.observe(tid, Event { site, args: [a, b, c, d] });
     }
 }
 
